@@ -134,6 +134,17 @@ Proof.
   destruct (gcrashes c); [discriminate|reflexivity].
 Qed.
 
+(* the Connectivity cascade has the specified order and rate whenever (d/s)^2 rounds to at least 1 *)
+Theorem conn_refines_spec c n : g_conn c = true -> gconn_run c n = gspec_run c n.
+Proof.
+  intros H. unfold gconn_run, gspec_run. f_equal. unfold conn_params, spec_params. apply map_ext_in. intros e He.
+  unfold g_conn in H. apply andb_prop in H. destruct H as [Hd H]. apply Nat.eqb_eq in Hd.
+  rewrite forallb_forall in H. specialize (H e He). rewrite Hd.
+  destruct (gd e) as [[d [s|]]|]; try discriminate. apply Nat.leb_le in H.
+  replace (Nat.max 1 (Z.to_nat (round_half_even (sq (d / s))))) with (Nat.max (Z.to_nat (round_half_even (sq (d / s)))) 0) by lia.
+  reflexivity.
+Qed.
+
 (* ---- the order/rate formulas of the specification ---- *)
 Theorem spec_order_rate c e d s : In e (gedges c) -> gd e = Some (d, Some s) ->
   In (Nat.max (Z.to_nat (round_half_even ((d / s) * (d / s)))) (gdde c),
